@@ -110,11 +110,16 @@ PRELUDE_C = PRELUDE + (
     ('define', 'pr', ('p',), (('print', V('p')), ('return', ('bin', '*', V('p'), N(2))))),
     # a printf of its own, with positional and named fields, while the caller's printf is collecting values
     ('define', 'pf', ('p',), (('printf', '<{} {x}>', (V('p'),)), ('return', N(8)))),
+    # calls something itself (a built-in, a user routine) before it prints
+    ('define', 'pc', ('p',), (('assign', 'q', ('call', 'round', (V('p'),))), ('print', V('q')), ('return', ('bin', '+', V('q'), N(1))))),
+    ('define', 'pd', ('p',), (('assign', 'q', ('call', 'id', (V('p'),))), ('printf', '<{}:{}>', (V('q'), ('call', 'id', (N(2),)))),
+                              ('return', V('q')))),
     # conditional return, no loop
     ('define', 'cr', ('p',), (('if', ((('bin', '>', V('p'), N(1)), (('return', N(1)),)),), None), ('return', N(0)))),
 )
 CALLS = [N(5), ('call', 'id', (N(9),)), ('call', 'lp', (N(10),)), ('call', 'll', ()), ('call', 'pr', (N(3),)),
-         ('call', 'pf', (N(6),)), ('call', 'cr', (N(2),)), ('call', 'lp', (('call', 'lp', (N(1),)),))]
+         ('call', 'pf', (N(6),)), ('call', 'cr', (N(2),)), ('call', 'lp', (('call', 'lp', (N(1),)),)),
+         ('call', 'pc', (N(2.6),)), ('call', 'pd', (N(4),))]
 
 
 def call_programs(maxargs):
